@@ -11,6 +11,7 @@ fmtkind = z3.Function('fmtkind', I, I)      # 1: "%d.%0Nd"   2: "%d.%0Nd_%0Md"
 fmtN = z3.Function('fmtN', I, I)
 fmtM = z3.Function('fmtM', I, I)
 str_of_int = z3.Function('str_of_int', I, I)
+str_find = z3.Function('str_find', I, I, I)     # s.find(sub): position or -1
 
 
 class Strings:
